@@ -27,7 +27,8 @@ META = dict(
 )
 META['level_text'] = (
     'Theorems: from_numbers(to_numbers d) = d, the compact JSON value parses back to the same DNA, the nested-number view parses back (after the repair of the chain rendering), '
-    'the dictionary view reconstructs the DNA (proved for id keys / sub-choice keys / every non-DNA value type under view_ok; the other key styles and lookups are decided by the correspondence and the oracle), '
+    'the dictionary view reconstructs the DNA (proved for id keys with subchoice / both keys with and without inactive decisions and for dna_spec keys, every non-DNA value type, under view_ok; parent keys and name_or_id keys are decided by the correspondence and the oracle), '
+    'DNA.__getitem__ by id / decision point returns the node at that decision point\'s position and None when inactive (proved), to_dict for every style is a fold over the decision nodes (proved), '
     'and every producer returns an aligned DNA (each node bound to the decision point of its position), whose views equal those of the DNA rebuilt from its numbers. '
     'Tie: the model is run against the library on generated specifications x valid DNAs x all 45 view-parameter combinations (plus inactive decisions), on corrupted views, and '
     'the direct oracle checks every round trip and the alignment of every DNA the library hands out along chains iter -> clone -> mutate -> recombine.')
